@@ -187,6 +187,19 @@ def run_unit(unit):
             res = check_state(part, o, sp, det, full=(stop == 0))
             if res:
                 S14.append((stop, res[0]['S'][0], res[0]['S'][3], res[1]))
+            if res and stop in (0, len(base) - 1):
+                # history on the same lens object: the aperture, then the field, are edited (no radius / thickness / index
+                # changes in between) and every aberration query is asked again
+                import copy as _copy
+                sp_h = _copy.deepcopy(sp)
+                sp_h['ap'] = [apx[0], 0.6 * apx[1]]
+                o.set_aperture(apx[0], 0.6 * apx[1])
+                part.transitions += 1
+                check_state(part, o, sp_h, dict(det, after='set_aperture x0.6'), full=False)
+                sp_h['fields'] = list(sp_h['fields']) + [[1.3 * mf, 0.0, 0.0]]
+                o.add_field(y=1.3 * mf)
+                part.transitions += 1
+                check_state(part, o, sp_h, dict(det, after='set_aperture x0.6, add_field x1.3'), full=False)
         # S_I and S_IV do not depend on where the stop is
         if len(S14) > 1:
             part.count('cmp:stop-shift')
